@@ -11,7 +11,7 @@ RULE = ('complete grid of (t, now, c, threshold) with t-c in -2..2, (t-now)-thre
         '{-1,0,1,2,60,2^31}, c in {0,1,255,256,2^31-1,2^32,2^63-1,1.7e9}, fractional and integral clocks, constraint '
         'encodings of minimal / padded / 9-byte length, for CHECK_TIMESTAMP(_VERIFY) and CHECK_EPOCH(_VERIFY) through '
         'run_script with the clock pinned; the three lock builders (op_verify on/off) through run_auth_scripts on a '
-        'grid of ts / t / slack thresholds; Hypothesis 63-bit quadruples. Oracle: the formulas of the property '
+        'grid of ts / t / slack thresholds x window widths 50, 1, 0 (empty), -1, -50 (begin > end: nothing is inside); Hypothesis 63-bit quadruples. Oracle: the formulas of the property '
         'statement. non-trivial = within +-2 of a boundary (constraint or slack); distinct = the tuple incl. encoding.')
 ASSUMPTIONS = ['verifier clock pinned through functions.time / tools.time; now = int(clock); clocks are non-negative',
                'CHECK_EPOCH with a negative threshold is an error by documentation and is not compared',
@@ -219,16 +219,20 @@ def task_locks(ctx):
         if i % ctx.nshards != ctx.shard:
             continue
         ts = NOW + off
-        ts2 = ts + 50
-        pts = {ts - 2, ts - 1, ts, ts + 1, ts + 2, ts2 - 2, ts2 - 1, ts2, ts2 + 1,
-               NOW + thr - 2, NOW + thr - 1, NOW + thr, NOW + thr + 1, NOW + 1000, NOW - 1000}
-        for t in sorted(pts):
-            for verify in (False, True):
-                for frac in (0.0, 0.5):
-                    for kind in ('after', 'before', 'between'):
-                        _do_lock(ctx, kind, verify, ts, ts2, t, NOW, frac, thr, True,
-                                 sample=(t == ts and verify and kind == 'between' and not frac))
-                        n += 1
+        # the window [ts, ts2): 50 long, one second, empty, and inverted (begin > end: no t is inside)
+        for width in (50, 1, 0, -1, -50):
+            ts2 = ts + width
+            pts = {ts - 2, ts - 1, ts, ts + 1, ts + 2, ts2 - 2, ts2 - 1, ts2, ts2 + 1,
+                   NOW + thr - 2, NOW + thr - 1, NOW + thr, NOW + thr + 1, NOW + 1000, NOW - 1000}
+            for t in sorted(pts):
+                for verify in (False, True):
+                    for frac in (0.0, 0.5):
+                        for kind in (('after', 'before', 'between') if width == 50 else ('between',)):
+                            _do_lock(ctx, kind, verify, ts, ts2, t, NOW, frac, thr, True,
+                                     sample=(t == ts and verify and kind == 'between' and not frac and width == 50))
+                            if width <= 0:
+                                ctx.count('lock:between with an empty or inverted window')
+                            n += 1
     ctx.exhaustive['lock grid points'] = n
 
 
@@ -262,7 +266,7 @@ def task_random(ctx):
         now = draw(st.integers(1_000_000, 2 ** 40))
         thr = draw(st.sampled_from([0, 1, 2, 60, 120, 3600]))
         ts = max(0, now + draw(st.integers(-5000, 5000)))
-        ts2 = ts + draw(st.integers(0, 200))
+        ts2 = max(0, ts + draw(st.one_of(st.integers(0, 200), st.integers(-200, 200))))
         t = max(0, draw(st.sampled_from([ts, ts2, now + thr])) + draw(st.integers(-3, 3)))
         return (draw(st.sampled_from(['after', 'before', 'between'])), draw(st.booleans()), ts, ts2, t, now,
                 draw(st.sampled_from([0.0, 0.5])), thr)
